@@ -5,7 +5,7 @@
 
 package tlog
 
-//@ func (*Writer).Initialize
+//@ func (*Writer).Initialize params (w) returns (err)
 //@   requires w != nil
 //@   ensures  (err != nil) == (w.ByteWriter == nil)
 //@   ensures  err == nil ==> w.frameWriter != nil && frame.SpecWriterReady(w.frameWriter) &&
@@ -16,7 +16,7 @@ package tlog
 // handed to the file in ONE write; a frame that cannot be encoded never reaches the file.
 // Log of one call: 0 = Reset of the scratch buffer, 1 = the timestamp into it, 2 = the frame into it (frame writer),
 // 3 = the whole entry to the file.
-//@ func (*Writer).Write
+//@ func (*Writer).Write params (w, entry) returns (err)
 //@   let fr = entry.Frame
 //@   let refused = (old(frame.SpecFrameMessage(entry.Frame)) == nil || old(frame.SpecRefusedByVersion(entry.Frame)) ||
 //@                  (!old(frame.SpecIsRaw(frame.SpecFrameMessage(entry.Frame))) && (w.DialectRW == nil ||
@@ -40,13 +40,13 @@ package tlog
 //@            *frame.SpecMessageField(entry.Frame) when old(frame.SpecFrameMessage(entry.Frame)) != nil && !old(frame.SpecIsRaw(frame.SpecFrameMessage(entry.Frame))),
 //@            *frame.SpecChecksumField(entry.Frame) when old(frame.SpecFrameMessage(entry.Frame)) != nil && !old(frame.SpecIsRaw(frame.SpecFrameMessage(entry.Frame)))
 
-//@ func (*Reader).Initialize
+//@ func (*Reader).Initialize params (r) returns (err)
 //@   requires r != nil
 //@   ensures  err == nil && r.br != nil && r.frameReader != nil && r.frameReader.BufByteReader == r.br &&
 //@            r.frameReader.DialectRW == r.DialectRW && r.frameReader.InKey == nil
 //@   modifies r.br, r.frameReader
 
-//@ func (*Reader).Read returns (res, err)
+//@ func (*Reader).Read params (r) returns (res, err)
 //@   let BR  = r.br
 //@   let P0  = old(streamPos(r.br))
 //@   let AV  = streamAvail(r.br)
